@@ -271,8 +271,7 @@ impl<const LEVELS: usize> OrderBook<LEVELS> {
     /// Get current mid-price (as a float)
     pub fn mid_price(&self) -> f64 {
         let (bid, ask) = self.bid_ask();
-        let spread = ask - bid;
-        f64::from(bid) + 0.5 * f64::from(spread)
+        0.5 * (f64::from(bid) + f64::from(ask))
     }
 
     /// Get current level 1 market data
